@@ -56,6 +56,10 @@ def gen(rng, n, tier):
     for i in range(max(1, n // 30)):
         c = M.gen_lb_thin(rng, tier)
         out.append(dict(kind='lbdy-thin', content=c, write=True, reread=True))
+    # cloud/rain files, 3-field (< 4.3) and 5-field layouts
+    for i in range(max(2, n // 12)):
+        c = M.gen_cloud_rain(rng, tier)
+        out.append(dict(kind='met-cloud_rain', content=c, write=True, reread=True))
     return out
 
 
